@@ -311,6 +311,11 @@ fn string_to_kind_and_id(s: &str) -> Result<(AddressKind, Id)> {
     // accepts the Bech32m checksum too, so the checksum variant is pinned here.
     let checked =
         CheckedHrpstring::new::<Bech32>(s).map_err(|_| Error::InvalidAddress(s.to_owned()))?;
+    // The data part must be a regrouping of whole bytes (BIP-173: at most 4 bits
+    // of padding, all zero), otherwise many strings would parse to one address.
+    checked
+        .validate_segwit_padding()
+        .map_err(|_| Error::InvalidAddress(s.to_owned()))?;
     let hrp = checked.hrp();
     let data: Vec<u8> = checked.byte_iter().collect();
 
